@@ -29,6 +29,11 @@ fn headers_of(cenc: Option<&str>, ctype: Option<&str>) -> Vec<Header> {
 }
 
 fn emit_case(emit: &mut dyn FnMut(Value), body: &[u8], enc: &str, level: u32, window: u32, pflush: &[usize], cenc: &str, ctype: Option<&str>, filters: &[FSpec], scheds: &[Vec<usize>], shape: &str) {
+    emit_case_h(emit, body, enc, level, window, pflush, cenc, ctype, None, filters, scheds, shape)
+}
+
+#[allow(clippy::too_many_arguments)]
+fn emit_case_h(emit: &mut dyn FnMut(Value), body: &[u8], enc: &str, level: u32, window: u32, pflush: &[usize], cenc: &str, ctype: Option<&str>, headers: Option<&[(String, String)]>, filters: &[FSpec], scheds: &[Vec<usize>], shape: &str) {
     let z = compress(enc, level, window, pflush, body).unwrap_or_else(|| body.to_vec());
     let mut flush: Vec<Value> = Vec::new();
     let mut scheds2: Vec<Vec<usize>> = Vec::new();
@@ -45,12 +50,152 @@ fn emit_case(emit: &mut dyn FnMut(Value), body: &[u8], enc: &str, level: u32, wi
         }
         scheds2.push(cuts);
     }
-    emit(json!({
+    let mut case = json!({
         "body": hex(body), "enc": enc, "level": level, "window": window, "pflush": pflush, "cenc": cenc, "ctype": ctype,
         "filters": filters.iter().map(|f| f.to_json()).collect::<Vec<_>>(),
         "scheds": scheds_json(&scheds2), "flush": flush, "shape": shape,
-    }));
+    });
+    if let Some(h) = headers {
+        case["headers"] = Value::Array(h.iter().map(|(n, v)| json!([n, v])).collect());
+    }
+    emit(case);
 }
+
+/// what FilterBodyAction::new makes of a header list, written independently of the code (oracle of the gates):
+/// last header of that (case-insensitive) name wins, value lower-cased
+fn effective(headers: &[(String, String)], name: &str) -> Option<String> {
+    let mut v = None;
+    for (n, val) in headers {
+        if n.to_lowercase() == name {
+            v = Some(val.to_lowercase());
+        }
+    }
+    v
+}
+
+/// the chain shape the gates should give (oracle): html filters only without content type or with one containing
+/// "text/html"; no stage => empty chain; Content-Encoding absent => no codec stages; br/gzip/deflate => decode .. encode;
+/// any other value => empty chain
+fn expected_kinds(fs: &[FSpec], headers: &[(String, String)]) -> Vec<&'static str> {
+    let ct = effective(headers, "content-type");
+    let ce = effective(headers, "content-encoding");
+    let html_ok = match &ct {
+        None => true,
+        Some(c) => c.contains("text/html"),
+    };
+    let mut stages: Vec<&'static str> = Vec::new();
+    for f in fs {
+        if !f.builds() {
+            continue;
+        }
+        if f.is_html() {
+            if html_ok {
+                stages.push("html");
+            }
+        } else {
+            stages.push("text");
+        }
+    }
+    if stages.is_empty() {
+        return stages;
+    }
+    match ce {
+        None => stages,
+        Some(e) if ENCODINGS.contains(&e.as_str()) => {
+            let mut v = vec!["decode"];
+            v.extend(stages);
+            v.push("encode");
+            v
+        }
+        Some(_) => Vec::new(),
+    }
+}
+
+/// GATES: header NAME and VALUE case / spacing variants, duplicates (the last one wins), content types
+fn gen_gates(emit: &mut dyn FnMut(Value)) {
+    let h = |a: &str, path: &[&str], v: &str| FSpec::Html { action: a.to_string(), path: path.iter().map(|x| x.to_string()).collect(), sel: None, value: v.to_string() };
+    let t = |a: &str, c: &str| FSpec::Text { action: a.to_string(), content: c.to_string() };
+    let body = "<html><head><title>t</title></head><body class=\"page\"><div>Yolo \u{e9}</div></body></html>";
+    let fsets: Vec<Vec<FSpec>> = vec![
+        vec![h("append_child", &["html", "body"], "<ins-0>v0</ins-0>")],
+        vec![t("append_text", "\u{a7}T0\u{a7}"), h("prepend_child", &["html", "body", "div"], "<ins-1/>")],
+    ];
+    let ce_values = ["GZIP", "Gzip", "gzip", "BR", "Br", "br", "deflate", "DEFLATE", "Deflate", "identity", "gzip, br", " gzip", "gzip ", "x-gzip", ""];
+    let ce_names = ["Content-Encoding", "content-encoding", "CONTENT-ENCODING", "Content-encoding"];
+    let ctypes: [Option<(&str, &str)>; 8] = [
+        None,
+        Some(("Content-Type", "TEXT/HTML; charset=UTF-8")),
+        Some(("Content-Type", "text/html")),
+        Some(("content-type", "Text/Html")),
+        Some(("CONTENT-TYPE", "application/xhtml+xml")),
+        Some(("Content-Type", "text/plain")),
+        Some(("Content-type", "application/json; x=text/html")),
+        Some(("Content-Type", "")),
+    ];
+    let mut n = 0usize;
+    let mut one = |emit: &mut dyn FnMut(Value), headers: Vec<(String, String)>, fs: &Vec<FSpec>| {
+        let eff = effective(&headers, "content-encoding");
+        let enc = match &eff {
+            Some(e) if ENCODINGS.contains(&e.as_str()) => e.clone(),
+            _ => "none".to_string(),
+        };
+        let z = compress(&enc, 6, 22, &[], body.as_bytes()).unwrap_or_else(|| body.as_bytes().to_vec());
+        let scheds: Vec<Vec<usize>> = vec![vec![], (1..=(z.len() - 1) / 10).map(|k| k * 10).collect(), vec![z.len() / 3, z.len() / 3, z.len() - 1]];
+        emit_case_h(emit, body.as_bytes(), &enc, 6, 22, &[], eff.as_deref().unwrap_or(""), None, Some(&headers), fs, &scheds, "gates");
+    };
+    for (i, cev) in ce_values.iter().enumerate() {
+        for (j, cen) in ce_names.iter().enumerate() {
+            let ct = &ctypes[(i + 3 * j) % ctypes.len()];
+            let mut headers: Vec<(String, String)> = Vec::new();
+            if let Some((cn, cv)) = ct {
+                if (i + j) % 2 == 0 {
+                    headers.push((cn.to_string(), cv.to_string()));
+                }
+            }
+            headers.push((cen.to_string(), cev.to_string()));
+            if let Some((cn, cv)) = ct {
+                if (i + j) % 2 == 1 {
+                    headers.push((cn.to_string(), cv.to_string()));
+                }
+            }
+            one(emit, headers, &fsets[n % 2]);
+            n += 1;
+        }
+    }
+    // every content type with a plain gzip / absent encoding, both filter sets
+    for ct in &ctypes {
+        for ce in [Some("gzip"), None] {
+            for fs in &fsets {
+                let mut headers: Vec<(String, String)> = Vec::new();
+                if let Some(e) = ce {
+                    headers.push(("Content-Encoding".to_string(), e.to_string()));
+                }
+                if let Some((cn, cv)) = ct {
+                    headers.push((cn.to_string(), cv.to_string()));
+                }
+                one(emit, headers, fs);
+            }
+        }
+    }
+    // duplicates: the last header of a name wins (names in different cases count as the same name)
+    let dups: Vec<Vec<(&str, &str)>> = vec![
+        vec![("Content-Encoding", "gzip"), ("Content-Encoding", "br")],
+        vec![("Content-Encoding", "br"), ("content-encoding", "GZIP")],
+        vec![("Content-Encoding", "gzip"), ("CONTENT-ENCODING", "identity")],
+        vec![("Content-Encoding", "identity"), ("Content-Encoding", "deflate")],
+        vec![("Content-Encoding", "zstd"), ("X-Other", "gzip")],
+        vec![("Content-Type", "text/plain"), ("Content-Encoding", "gzip"), ("content-type", "TEXT/HTML")],
+        vec![("Content-Type", "text/html"), ("Content-Encoding", "Br"), ("CONTENT-TYPE", "text/plain")],
+        vec![("X-Content-Encoding", "gzip")],
+        vec![("Content-Encoding-X", "gzip"), ("Content-Type", "text/html")],
+    ];
+    for d in dups {
+        for fs in &fsets {
+            one(emit, d.iter().map(|(a, b)| (a.to_string(), b.to_string())).collect(), fs);
+        }
+    }
+}
+
 
 /// schedules given as functions of the length of the compressed stream
 fn sched_single() -> Vec<usize> {
@@ -244,9 +389,68 @@ fn run_laws(case: &Value) -> Obs {
     o
 }
 
+/// diff-directed hints (VERIF_HINTS): sizes -> decompressed body sizes n-1, n, n+1 (one compressed chunk inflating to
+/// exactly that much; 3n with producer flushes at n and 2n), strides n of the compressed stream; strings -> header names
+/// and values of Content-Encoding / Content-Type (also upper / lower / swapped case), body text and filter values
+fn gen_hints(emit: &mut dyn FnMut(Value)) {
+    let hs = hints();
+    if hs.is_empty() {
+        return;
+    }
+    let h = |a: &str, path: &[&str], v: &str| FSpec::Html { action: a.to_string(), path: path.iter().map(|x| x.to_string()).collect(), sel: None, value: v.to_string() };
+    let t = |a: &str, c: &str| FSpec::Text { action: a.to_string(), content: c.to_string() };
+    let skeleton = "<html><body><div>";
+    let tail = "</div><p>x</p></body></html>";
+    for n in hs.sizes(400_000) {
+        for (k, enc) in ENCODINGS.iter().enumerate() {
+            let textlen = n.saturating_sub(skeleton.len() + tail.len());
+            let filler: String = if k == 1 { (0..textlen).map(|i| (b'a' + ((i * 7 + i / 13) % 26) as u8) as char).collect() } else { "a".repeat(textlen) };
+            let body = format!("{skeleton}{filler}{tail}");
+            let fs = vec![h("append_child", &["html", "body", "div"], "<ins-0>v0</ins-0>"), t("append_text", "\u{a7}T1\u{a7}")];
+            let z = compress(enc, 6, 22, &[], body.as_bytes()).unwrap();
+            let mut scheds: Vec<Vec<usize>> = vec![vec![], vec![z.len() / 2], (1..=(z.len() - 1) / n.max(1)).map(|i| i * n).take(4000).collect()];
+            scheds.push(vec![1, z.len() - 1]);
+            emit_case(emit, body.as_bytes(), enc, 6, 22, &[], enc, Some("text/html"), &fs, &scheds, "hint:size");
+            let body3 = format!("{skeleton}{}{tail}", filler.repeat(3));
+            emit_case(emit, body3.as_bytes(), enc, 6, 22, &[n, 2 * n], enc, None, &fs, &[vec![], vec![7]], "hint:size3");
+        }
+    }
+    let body = "<html><head><title>t</title></head><body><div>Yolo</div></body></html>";
+    let swap = |s: &str| -> String { s.chars().map(|c| if c.is_ascii_uppercase() { c.to_ascii_lowercase() } else { c.to_ascii_uppercase() }).collect() };
+    for s0 in &hs.strs {
+        for s in [s0.clone(), s0.to_uppercase(), s0.to_lowercase(), swap(s0)] {
+            let variants: Vec<Vec<(String, String)>> = vec![
+                vec![("Content-Encoding".to_string(), s.clone())],
+                vec![("Content-Encoding".to_string(), format!("{s}gzip"))],
+                vec![("Content-Encoding".to_string(), format!("gzip{s}"))],
+                vec![(s.clone(), "gzip".to_string())],
+                vec![("Content-Type".to_string(), s.clone()), ("Content-Encoding".to_string(), "gzip".to_string())],
+                vec![("Content-Type".to_string(), format!("text/html{s}")), ("Content-Encoding".to_string(), "br".to_string())],
+                vec![("Content-Type".to_string(), format!("{s}text/html")), ("Content-Encoding".to_string(), "DEFLATE".to_string())],
+                vec![("Content-Encoding".to_string(), "gzip".to_string()), ("Content-Encoding".to_string(), s.clone())],
+                vec![("Content-Encoding".to_string(), s.clone()), ("content-encoding".to_string(), "Gzip".to_string())],
+            ];
+            for headers in variants {
+                let eff = effective(&headers, "content-encoding");
+                let enc = match &eff {
+                    Some(e) if ENCODINGS.contains(&e.as_str()) => e.clone(),
+                    _ => "none".to_string(),
+                };
+                let b = format!("{body}{s}");
+                let fs = vec![h("append_child", &["html", "body"], &format!("<ins-0>{s}</ins-0>")), t("append_text", "\u{a7}T1\u{a7}")];
+                let z = compress(&enc, 6, 22, &[], b.as_bytes()).unwrap_or_else(|| b.as_bytes().to_vec());
+                let scheds: Vec<Vec<usize>> = vec![vec![], (1..z.len()).step_by(9).collect()];
+                emit_case_h(emit, b.as_bytes(), &enc, 6, 22, &[], eff.as_deref().unwrap_or(""), None, Some(&headers), &fs, &scheds, "hint:str");
+            }
+        }
+    }
+}
+
 fn gen(args: &Args, emit: &mut dyn FnMut(Value)) {
     let mut rng = seeded(args.seed);
+    gen_hints(emit);
     gen_fixed(&mut rng, emit);
+    gen_gates(emit);
     gen_laws(&mut rng, (args.n / 3).max(60), emit);
     for n in 0..args.n {
         // bodies: valid UTF-8 documents; raw-text / comments are rarer than in C03 (D4 is C03's finding) but present
@@ -355,11 +559,40 @@ fn run(case: &Value) -> Obs {
     let window = case.get("window").and_then(|v| v.as_u64()).unwrap_or(22) as u32;
     let pflush: Vec<usize> = case.get("pflush").and_then(|v| v.as_array()).map(|a| a.iter().filter_map(|x| x.as_u64().map(|y| y as usize)).collect()).unwrap_or_default();
     let supported = ENCODINGS.contains(&enc.as_str());
-    if supported && cenc.to_lowercase() != enc {
-        return Obs::invalid("cenc does not name enc");
-    }
-    if !supported && ENCODINGS.contains(&cenc.to_lowercase().as_str()) {
-        return Obs::invalid("cenc names a supported encoding but enc does not");
+    // explicit header list (gates family) or the two-field form
+    let header_list: Vec<(String, String)> = match case.get("headers").and_then(|v| v.as_array()) {
+        Some(a) => {
+            let mut v = Vec::new();
+            for h in a {
+                match h.as_array() {
+                    Some(p) if p.len() == 2 && p[0].is_string() && p[1].is_string() => v.push((p[0].as_str().unwrap().to_string(), p[1].as_str().unwrap().to_string())),
+                    _ => return Obs::invalid("headers"),
+                }
+            }
+            v
+        }
+        None => {
+            let mut v = Vec::new();
+            if let Some(c) = &ctype {
+                v.push(("Content-Type".to_string(), c.clone()));
+            }
+            v.push(("Content-Encoding".to_string(), cenc.clone()));
+            v
+        }
+    };
+    // the body is compressed with `enc`: it must be what the header list (as the unchanged code reads it) announces
+    let eff = effective(&header_list, "content-encoding");
+    match &eff {
+        Some(e) if ENCODINGS.contains(&e.as_str()) => {
+            if *e != enc {
+                return Obs::invalid("the effective Content-Encoding does not name enc");
+            }
+        }
+        _ => {
+            if supported {
+                return Obs::invalid("enc is supported but the headers do not announce it");
+            }
+        }
     }
     let z = if supported {
         match compress(&enc, level, window, &pflush, &body) {
@@ -377,11 +610,12 @@ fn run(case: &Value) -> Obs {
         Some(a) if a.len() == scheds.len() => a.clone(),
         _ => return Obs::invalid("flush"),
     };
-    let headers = headers_of(Some(&cenc), ctype.as_deref());
-    let plain_headers = headers_of(None, ctype.as_deref());
+    let headers: Vec<Header> = header_list.iter().map(|(n, v)| Header { name: n.clone(), value: v.clone() }).collect();
+    let plain_headers: Vec<Header> = headers.iter().filter(|h| h.name.to_lowercase() != "content-encoding").cloned().collect();
     let probe = run_chain(&fs, &headers, &[]);
     let kinds = probe.kinds.clone();
     let compressed = kinds.first() == Some(&"decode");
+    let expect_kinds = expected_kinds(&fs, &header_list);
     let plain: Option<Vec<u8>> = if compressed { Some(run_chain(&fs, &plain_headers, &[body.clone()]).concat()) } else { None };
     let mut sch = Vec::new();
     let mut fail: Option<(String, &'static str)> = None;
@@ -414,11 +648,23 @@ fn run(case: &Value) -> Obs {
         let r = run_chain(&fs, &headers, &chunks);
         let out = r.concat();
         if !compressed {
-            if out == z {
-                sch.push(json!("="));
+            if kinds.is_empty() {
+                if out == z {
+                    sch.push(json!("="));
+                } else {
+                    sch.push(json!(hex(&out)));
+                    note((format!("schedule {i}: chain is empty but the output differs from the input"), "unsupported-not-passthrough"), &mut fail);
+                }
             } else {
-                sch.push(json!(hex(&out)));
-                note((format!("schedule {i}: chain is empty but the output differs from the input"), "unsupported-not-passthrough"), &mut fail);
+                // no Content-Encoding header: a plain chain on the raw body; "=" = the single-chunk output (C03)
+                let one = run_chain(&fs, &headers, &[z.clone()]).concat();
+                if out == one {
+                    sch.push(json!("="));
+                } else {
+                    sch.push(json!(hex(&out)));
+                    let class = classify_schedule(&fs, &plain_headers, &chunks).unwrap_or("safe-cuts");
+                    note((format!("schedule {i}: plain chain differs from its single-chunk run ({class})"), class), &mut fail);
+                }
             }
             continue;
         }
@@ -456,6 +702,9 @@ fn run(case: &Value) -> Obs {
         }
     }
     let _ = n_flush_cuts;
+    if kinds != expect_kinds {
+        note((format!("chain stages {:?} but the gates (last header wins, names and values lower-cased, text/html needle) call for {:?}", kinds, expect_kinds), "gate-mismatch"), &mut fail);
+    }
     let mut o = Obs::new(json!({"kinds": kinds, "plain": plain.as_ref().map(|p| hex(p)), "sch": sch})).trivial(!compressed || body.is_empty());
     o.tags.push(format!("enc:{}", if supported { enc.as_str() } else { "unsupported" }));
     o.tags.push(format!("chain:{}", kinds.join("+")));
@@ -465,7 +714,7 @@ fn run(case: &Value) -> Obs {
         }
     }
     if let Some(shape) = case.get("shape").and_then(|s| s.as_str()) {
-        if shape == "large" || shape == "end-paths" {
+        if shape == "large" || shape == "end-paths" || shape == "gates" {
             o.tags.push(format!("shape:{shape}"));
         }
     }
